@@ -628,7 +628,11 @@ def run(ctx):
     ctx.lean_build([PROPS, "pdshmodel"])
     ctx.audit(PROPS)
     cov = {"evaluations": 0, "distinct_nontrivial": 0, "samples": [],
-           "rule": "a case = subset of a pool of ~50 generated module files (planned option overlaps incl. built-in "
+           "rule": "~700 pinned cases first (every enumeration order of 17 tie / duplicate / conflict groups of 3-4 modules, "
+                   "-M lists naming missing, repeated, conflicting and non-misc modules via option and environment, the "
+                   "permission matrix owner x mode on a module file and on EACH ancestor directory, callers, symbolic links "
+                   "to files and to the directory, unopenable / empty / repeated enumeration), then random: "
+                   "a case = subset of a pool of ~55 generated module files (planned option overlaps incl. built-in "
                    "letters, duplicate (type,name) with higher/equal/lower priority, other-personality duplicates, "
                    "failing/absent init, NULL/empty tables, broken objects) + enumeration order + stat overrides for "
                    "files and ancestors + uid/euid + owner of the binary + -M/PDSH_MISC_MODULES + pdsh/pdcp; each case "
@@ -694,7 +698,10 @@ def run(ctx):
                      "the activation clause of the specification is not evaluated for directories with a failing "
                      "initialiser (the text is silent on what happens to its registered options); the model "
                      "correspondence still covers them",
-                     "-M lists of the oracle's domain contain no brackets (list_split is bracket aware; modelled)"],
+                     "-M lists of the oracle's domain contain no brackets (list_split is bracket aware; modelled)",
+                     "directory entries are distinct objects; one object under two names is finding F17-SAMEOBJ (with "
+                     "findings/C17-sameobj.patch the later name is fed to the model as an object that registers nothing)",
+                     "a directory that cannot be opened is run as a directory without entries"],
         trusted_base=["Lean 4.33 kernel", "axioms: propext, Classical.choice, Quot.sound at most (audited per theorem)",
                       "hand-written model Mod/Load.lean tied to mod.c/opt.c/list.c by differential execution",
                       "Gen/Modopt.lean regenerated from /repo (GEN_ARGS, DSH_ARGS, PCP_ARGS, S_I* bits, default priority)",
